@@ -3,6 +3,7 @@ package model
 import (
 	"encoding/json"
 	"fmt"
+	"regexp"
 	"sort"
 	"strings"
 	"unicode"
@@ -381,6 +382,99 @@ func ParseTSDecls(src string) (TSDecls, error) {
 		}
 	}
 	return out, nil
+}
+
+// TSMethodSig is the declared signature of one RPC method: `async name(req: In, options?: ...): Promise<Out>` in a
+// client class, `name(ctx: ServerContext, req: In): Promise<Out>;` in a handler interface of the server module.
+type TSMethodSig struct {
+	Name    string
+	In, Out *TSType
+}
+
+var tsMethodHeadRe = regexp.MustCompile(`(?m)^\s*(?:async\s+)?([A-Za-z_$][\w$]*)\((?:ctx:\s*ServerContext,\s*)?req:\s*`)
+var tsClassRe = regexp.MustCompile(`(?m)^export\s+(?:class|interface)\s+([A-Za-z_$][\w$]*)`)
+
+// typeUntil returns the type expression starting at src[from:] up to the first of the stop bytes at bracket depth 0.
+func typeUntil(src string, from int, stops string) (string, int) {
+	depth := 0
+	for i := from; i < len(src); i++ {
+		c := src[i]
+		switch {
+		case c == '<' || c == '(' || c == '[' || c == '{':
+			depth++
+		case (c == '>' || c == ')' || c == ']' || c == '}') && depth > 0:
+			depth--
+		case depth == 0 && strings.IndexByte(stops, c) >= 0:
+			return strings.TrimSpace(src[from:i]), i
+		case c == '\n':
+			return "", -1
+		}
+	}
+	return "", -1
+}
+
+// ParseTSMethodSigs extracts the request and result types the client classes (and the server module's handler
+// interfaces) declare for their RPC methods, keyed "<Class or interface>.<method>".
+func ParseTSMethodSigs(src string) (map[string]TSMethodSig, error) {
+	out := map[string]TSMethodSig{}
+	classes := tsClassRe.FindAllStringSubmatchIndex(src, -1)
+	for _, ix := range tsMethodHeadRe.FindAllStringSubmatchIndex(src, -1) {
+		name := src[ix[2]:ix[3]]
+		inSrc, at := typeUntil(src, ix[1], ",)")
+		if at < 0 {
+			continue
+		}
+		// skip further parameters up to the closing parenthesis of the parameter list
+		for src[at] != ')' {
+			_, nx := typeUntil(src, at+1, ",)")
+			if nx < 0 {
+				break
+			}
+			at = nx
+		}
+		rest := src[at:]
+		const lead = "): Promise<"
+		if !strings.HasPrefix(rest, lead) {
+			continue
+		}
+		outSrc, end := typeUntil(src, at+len(lead), ">")
+		if end < 0 {
+			continue
+		}
+		class := ""
+		for _, c := range classes {
+			if c[0] < ix[0] {
+				class = src[c[2]:c[3]]
+			}
+		}
+		in, err := ParseTSTypeExpr(inSrc)
+		if err != nil {
+			return nil, fmt.Errorf("method %s.%s request type %q: %w", class, name, inSrc, err)
+		}
+		o, err := ParseTSTypeExpr(outSrc)
+		if err != nil {
+			return nil, fmt.Errorf("method %s.%s result type %q: %w", class, name, outSrc, err)
+		}
+		out[class+"."+name] = TSMethodSig{Name: name, In: in, Out: o}
+	}
+	return out, nil
+}
+
+// ParseTSTypeExpr parses one type expression of the modelled subset.
+func ParseTSTypeExpr(src string) (*TSType, error) {
+	toks, err := tsLex(src)
+	if err != nil {
+		return nil, err
+	}
+	p := &tsParser{toks: toks}
+	t, err := p.parseType()
+	if err != nil {
+		return nil, err
+	}
+	if p.peek().kind != "eof" {
+		return nil, fmt.Errorf("trailing input after type: %q", p.peek().val)
+	}
+	return t, nil
 }
 
 // String renders a type canonically (used to compare declaration sets).
